@@ -1018,6 +1018,9 @@ func TestC18(t *testing.T) {
 	})
 	rec.Suite("values", n, func(c *ev.Case) { runValue(c, family[c.I%len(family)]) })
 	rec.Suite("fan-out", rec.N(400, 40000), func(c *ev.Case) { fanOutRound(c, g) })
+	rec.Suite("inherited-group-overridden-member", rec.N(8, 200), func(c *ev.Case) { inheritedGroupRound(c) })
+	rec.Suite("repeated-after-gap", rec.N(300, 30000), func(c *ev.Case) { gapRound(c, g) })
+	rec.Suite("marshal-after-load", rec.N(16, 800), func(c *ev.Case) { marshalAfterLoad(c, c.I%2) })
 	// a dictionary load that fails part-way must not take away what worked before: the same
 	// shapes against a private parser, before and after a load that restates the whole
 	// generated dictionary and then hits a data type with a typo
@@ -1076,6 +1079,190 @@ func goTypeFor(k refcodec.Kind) (reflect.Type, bool) {
 // and used for messages of several applications in turn: the AVP a tag name
 // produces must be the one the dictionary resolves for the message's own
 // application, whatever the type was used with before.
+// marshalAfterLoad: a struct type is marshalled, then a later Load gives one of its tagged names
+// another meaning for the message's application, then it is marshalled again: the AVPs are the
+// ones a caller would build by hand from the dictionary as it is now.
+func marshalAfterLoad(c *ev.Case, variant int) {
+	sig := func(op string) ev.Sig { return ev.Sig{"op": op, "shape": "marshal-after-load"} }
+	baseXML := strings.Replace(lib.GenXML, `    <avp name="G-Ident" code="9102" must="M"><data type="OctetString"/></avp>`+"\n", "", 1)
+	gf, err := refdict.Parse("gen-base", baseXML)
+	if err != nil || baseXML == lib.GenXML {
+		c.Fail(sig("setup"), nil, nil, "generated dictionary without the application-level G-Ident: %v", err)
+		return
+	}
+	cx, err := lib.Load("gen-base", gf)
+	if err != nil {
+		c.Fail(sig("setup"), nil, nil, "%v", err)
+		return
+	}
+	type inner struct {
+		I string `avp:"G-Ident"`
+	}
+	type shape struct {
+		U uint32 `avp:"G-U32"`
+		I string `avp:"G-Ident"`
+		G inner  `avp:"G-Group"`
+	}
+	app := uint32(8388001)
+	ext := `<?xml version="1.0" encoding="UTF-8"?><diameter><application id="8388001" type="auth" name="Gen-App"><avp name="G-Ident" code="9102" must="M"><data type="OctetString"/></avp></application></diameter>`
+	newCode := uint32(9102)
+	if variant%2 == 1 {
+		ext = `<?xml version="1.0" encoding="UTF-8"?><diameter><application id="0" name="Base"><avp name="G-Ident" code="9103" must="M"><data type="OctetString"/></avp></application></diameter>`
+		newCode = 9103
+	}
+	c.Class("marshal-after-load/variant=%d", variant)
+	check := func(when string, code uint32) bool {
+		m := diam.NewMessage(8388002, diam.RequestFlag, app, 1, 2, cx.Parser)
+		src := shape{U: 7, I: "a.b", G: inner{I: "c.d"}}
+		if err := m.Marshal(&src); err != nil {
+			c.Fail(sig("marshal-error"), nil, nil, "%s the later Load: Marshal: %v", when, err)
+			return false
+		}
+		if len(m.AVP) != 3 || m.AVP[1].Code != code {
+			c.Fail(sig("marshal-avps"), nil, nil, "%s the later Load the dictionary resolves G-Ident to code %d for application %d: Marshal produced %d AVPs, the second with code %d", when, code, app, len(m.AVP), m.AVP[min(1, len(m.AVP)-1)].Code)
+			return false
+		}
+		if g, ok := m.AVP[2].Data.(*diam.GroupedAVP); !ok || len(g.AVP) != 1 || g.AVP[0].Code != code {
+			c.Fail(sig("marshal-avps"), nil, nil, "%s the later Load: the grouped field's member does not have code %d", when, code)
+			return false
+		}
+		var dst shape
+		if err := m.Unmarshal(&dst); err != nil || dst != src {
+			c.Fail(sig("roundtrip-direct"), nil, nil, "%s the later Load: Marshal -> Unmarshal gives %+v (err=%v) for %+v", when, dst, err, src)
+			return false
+		}
+		return true
+	}
+	if !check("before", 9003) {
+		return
+	}
+	if err := cx.Parser.Load(strings.NewReader(ext)); err != nil {
+		c.Fail(sig("setup"), nil, nil, "Load of the extension: %v", err)
+		return
+	}
+	if !check("after", newCode) {
+		return
+	}
+	c.Event("roundtrips", 2)
+}
+
+// gapRound: the same AVP code in two places of a message with other AVPs in between (a struct
+// was marshalled and a relay appended more occurrences).  Unmarshal collects every occurrence into the slice field, leaves the
+// fields in between alone and does not touch the message.
+func gapRound(c *ev.Case, ctx *lib.Ctx) {
+	type shape struct {
+		U []uint32 `avp:"G-U32"`
+		S string   `avp:"G-UTF8"`
+		I int64    `avp:"G-I64"`
+	}
+	r := c.R
+	sig := func(op string) ev.Sig { return ev.Sig{"op": op, "shape": "repeated-after-gap"} }
+	src := shape{S: fmt.Sprintf("s%d", c.I), I: int64(-c.I)}
+	for i := 0; i < 1+r.IntN(3); i++ {
+		src.U = append(src.U, uint32(100+i))
+	}
+	m := diam.NewMessage(8388000, diam.RequestFlag, 0, 1, 2, ctx.Parser)
+	if err := m.Marshal(&src); err != nil {
+		c.Fail(sig("marshal-error"), nil, nil, "Marshal: %v", err)
+		return
+	}
+	extra := 1 + r.IntN(3)
+	want := src
+	want.U = append([]uint32(nil), src.U...)
+	for i := 0; i < extra; i++ {
+		m.NewAVP(9009, 0x40, 0, datatype.Unsigned32(uint32(900+i)))
+		want.U = append(want.U, uint32(900+i))
+	}
+	c.Class("repeated-after-gap/first-run=%d/appended=%d", len(src.U), extra)
+	for round, how := range []string{"direct", "wire"} {
+		mm := m
+		if round == 1 {
+			wire, err := m.Serialize()
+			if err != nil {
+				c.Fail(sig("marshal-length"), nil, nil, "Serialize: %v", err)
+				return
+			}
+			if mm, err = diam.ReadMessage(bytes.NewReader(wire), ctx.Parser); err != nil {
+				c.Fail(sig("read"), wire, nil, "ReadMessage: %v", err)
+				return
+			}
+		}
+		before := append([]*diam.AVP(nil), mm.AVP...)
+		var dst shape
+		if err := mm.Unmarshal(&dst); err != nil {
+			c.Fail(sig("unmarshal-"+how), nil, nil, "Unmarshal: %v", err)
+			return
+		}
+		if !reflect.DeepEqual(dst, want) {
+			c.Fail(sig("roundtrip-"+how), nil, nil, "a message that carries G-U32 %d times, other AVPs, then %d more times (%s): Unmarshal gives %+v, expected %+v", len(src.U), extra, how, dst, want)
+			return
+		}
+		for i := range before {
+			if i >= len(mm.AVP) || mm.AVP[i] != before[i] {
+				c.Fail(sig("unmarshal-modified-the-message"), nil, nil, "Unmarshal (%s) changed the message's AVP list at position %d", how, i)
+				return
+			}
+		}
+	}
+	c.Event("roundtrips", 2)
+}
+
+// inheritedGroupRound: the message's application (Gx, 16777238) inherits a grouped AVP from its
+// parent (credit control, 4) and defines one of the group's member names itself, with another
+// code and type.  A nested struct is marshalled the way a caller would build the AVPs by hand:
+// every name resolves through the message's application.
+func inheritedGroupRound(c *ev.Case) {
+	sig := func(op string) ev.Sig { return ev.Sig{"op": op, "shape": "inherited-group-overridden-member"} }
+	fs, err := lib.Embedded()
+	if err != nil {
+		c.Fail(sig("setup"), nil, nil, "%v", err)
+		return
+	}
+	x4, _ := refdict.Parse("x4", `<?xml version="1.0" encoding="UTF-8"?><diameter><application id="4" type="auth" name="X-CC">
+<avp name="X-Group" code="9501" must="M"><data type="Grouped"><rule avp="X-Member" required="false"/><rule avp="X-Other" required="false"/></data></avp>
+<avp name="X-Member" code="9502" must="M"><data type="Unsigned32"/></avp>
+<avp name="X-Other" code="9504" must="M"><data type="UTF8String"/></avp></application></diameter>`)
+	xg, _ := refdict.Parse("xgx", `<?xml version="1.0" encoding="UTF-8"?><diameter><application id="16777238" type="auth" name="X-Gx">
+<avp name="X-Member" code="9503" must="M,V" vendor-id="10415"><data type="Unsigned64"/></avp></application></diameter>`)
+	cx, err := lib.Load("base+x", fs[0], x4, xg)
+	if err != nil || x4 == nil || xg == nil {
+		c.Fail(sig("setup"), nil, nil, "loading the test dictionaries: %v", err)
+		return
+	}
+	type inner struct {
+		M uint64 `avp:"X-Member"`
+		O string `avp:"X-Other"`
+	}
+	type shape struct {
+		G inner `avp:"X-Group"`
+	}
+	for _, app := range []uint32{16777238, 4} {
+		wantCode, wantVendor := uint32(9503), uint32(10415)
+		val := uint64(1)<<40 + uint64(c.I)
+		if app == 4 {
+			wantCode, wantVendor, val = 9502, 0, uint64(c.I)
+		}
+		c.Class("inherited-group/app=%d", app)
+		m := diam.NewMessage(272, diam.RequestFlag, app, 1, 2, cx.Parser)
+		src := shape{G: inner{M: val, O: "o"}}
+		if err := m.Marshal(&src); err != nil {
+			c.Fail(sig("marshal-error"), nil, nil, "application %d: Marshal: %v", app, err)
+			return
+		}
+		g, ok := m.AVP[0].Data.(*diam.GroupedAVP)
+		if len(m.AVP) != 1 || !ok || len(g.AVP) != 2 || g.AVP[0].Code != wantCode || g.AVP[0].VendorID != wantVendor {
+			c.Fail(sig("marshal-avps"), nil, nil, "application %d: for a message of this application the dictionary resolves X-Member to code %d vendor %d; the group produced by Marshal holds %v", app, wantCode, wantVendor, m.AVP[0])
+			return
+		}
+		var dst shape
+		if err := m.Unmarshal(&dst); err != nil || dst != src {
+			c.Fail(sig("roundtrip-direct"), nil, nil, "application %d: Marshal -> Unmarshal gives %+v (err=%v) for %+v", app, dst, err, src)
+			return
+		}
+	}
+	c.Event("roundtrips", 2)
+}
+
 // fanOutRound: one struct value marshalled into two messages (a relay fanning a request out to
 // two next hops), each of which then gets AVPs of its own.  The struct's first field that yields
 // AVPs is a []*diam.AVP with spare capacity, the layout in which a Marshal that adopts the
